@@ -17,7 +17,8 @@ RULE = ("Cases = matrices (1-6 x 1-9) for RunLength2dArray and ragged arrays wit
         "inside the rows); row-wise sum/any/all (both), max/mean/argmax (ragged); column-wise sum (both), mean and counts "
         "(ragged), any (matrix; also interval-structured inputs); ravel; np.concatenate; np.sum/mean/max; unary ufuncs; "
         "ufuncs with a scalar or (n,1) column on either side incl. non-commutative ones.  Oracle = numpy on the dense rows.  "
-        "Non-trivial = at least two rows with different run structure; for ufuncs: operand on the left of a non-commutative ufunc.")
+        "Non-trivial = at least two rows with different run structure; for ufuncs: operand on the left of a non-commutative ufunc."
+        "  Matrix inputs in C / F / transposed / strided / reversed-stride layout; every source array is overwritten by the caller after encoding.")
 ASSUMPTIONS = ["column selection and max/mean/argmax on the matrix variant are not claimed by the property: not asserted",
                "values are finite; reductions are compared by value (float tolerance 4 ulp)"]
 
